@@ -3,7 +3,7 @@ import sys, math
 from common import *  # noqa
 
 PID = 'C20'
-MODELLED = {'makerandCIJ_dir', 'makerandCIJ_und', 'makeringlatticeCIJ', 'makeevenCIJ'}
+MODELLED = {'makerandCIJ_dir', 'makerandCIJ_und', 'makeringlatticeCIJ', 'makeevenCIJ', 'makerandCIJdegreesfixed'}
 
 
 def circ_dist(n):
@@ -15,13 +15,7 @@ def circ_dist(n):
 
 
 def cond_of(c):
-    r = c['routine']; d = {'routine': r}
-    if r == 'makeringlatticeCIJ':
-        d['n_even'] = c['n'] % 2 == 0
-        d['k_over_even_capacity'] = c['k'] > c['n'] * (c['n'] - 2)
-    if r == 'makerandCIJdegreesfixed':
-        d['k_positive'] = int(sum(c['inv'])) > 0
-    return d
+    return {'routine': c['routine']}
 
 
 def basic(F, X, n, sym=None):
@@ -125,6 +119,9 @@ def run_case(c):
 
 
 def lean_line(c, res):
+    if c['routine'] == 'makerandCIJdegreesfixed':
+        return '%s n=%d k=0 inv=%s outv=%s draws=%s' % (c['routine'], len(c['inv']), ','.join(map(str, c['inv'])) or '-',
+                                                       ','.join(map(str, c['outv'])) or '-', ','.join(map(str, res['draws'])) or '-')
     s = '%s n=%d k=%d draws=%s' % (c['routine'], c['n'], c['k'], ','.join(map(str, res['draws'])) or '-')
     if c['routine'] == 'makeevenCIJ':
         s += ' mx=%d szcl=%d' % (int(math.log2(c['n'])), c['sz_cl'])
@@ -179,13 +176,13 @@ def gen_cases(rs, tier):
                 for _ in range(seeds):
                     cases.append({'routine': 'makefractalCIJ', 'mx_lvl': mx, 'E': E, 'sz_cl': s, 'seed': int(rs.randint(2 ** 31))})
     # degrees fixed: graphical pairs = degree sequences of random simple digraphs, n <= 5 (+ the empty graph)
-    for n in (2, 3, 4, 5):
+    for n in ((2, 3, 4, 5, 6) if not big else (2, 3, 4, 5, 6, 7, 8)):
         cases.append({'routine': 'makerandCIJdegreesfixed', 'inv': [0] * n, 'outv': [0] * n, 'seed': 1})
-        for _ in range(12 if not big else 60):
-            A = rand_graph(rs, n, float(rs.choice([.2, .4, .6])), True)
+        for _ in range(30 if not big else 120):
+            A = rand_graph(rs, n, float(rs.choice([.2, .4, .6, .8])), True)
             if A.sum() == 0:
                 continue
-            for _s in range(seeds if big else 2):
+            for _s in range(seeds if big else 3):
                 cases.append({'routine': 'makerandCIJdegreesfixed', 'inv': [int(x) for x in A.sum(0)], 'outv': [int(x) for x in A.sum(1)],
                               'seed': int(rs.randint(2 ** 31))})
     return cases
@@ -195,11 +192,11 @@ def main():
     ck = Check(PID)
     ck.cov['rule'] = ('cases: makerandCIJ_dir / makeringlatticeCIJ every (N,K) with 2<=N<=8(11), 0<=K<=N(N-1); makerandCIJ_und every K<=N(N-1)/2; 5 seeds each; '
                       'makeevenCIJ N in {4,8,(16)}, every cluster size and every feasible K; maketoeplitzCIJ N=3..6(8), K<=N(N-1)/2, s in {1,2,4}; '
-                      'makefractalCIJ levels 2..4(5), E in {1,2,3}; makerandCIJdegreesfixed on degree sequences of random simple digraphs N<=5; '
+                      'makefractalCIJ levels 2..4(5), E in {1,2,3}; makerandCIJdegreesfixed on degree sequences of random simple digraphs N<=6(8); '
                       'non-trivial = distinct case in which the generator returned a non-empty matrix')
     ck.assumptions += ['K feasible: K <= N(N-1) (N(N-1)/2 undirected), K >= number of cluster cells for makeevenCIJ, N a power of two >= 4 where required',
                        'maketoeplitzCIJ (10000 rejections) and makerandCIJdegreesfixed (repair loop) may give up with BCTParamError (documented): counted, not a violation ("if it returns")',
-                       'maketoeplitzCIJ, makefractalCIJ, makerandCIJdegreesfixed are checked by the Python predicates only (no Lean model)']
+                       'maketoeplitzCIJ and makefractalCIJ are checked by the Python predicates only (no Lean model)']
     ok = ck.lean_gate(['BctVerif.Props.C20'], extra_modules=['BctVerif.Model.Synth'])
     if ck.tier == 'thorough' and ok:
         ck.leanchecker(['BctVerif.Props.C20', 'BctVerif.Model.Synth'])
@@ -234,6 +231,8 @@ def main():
         else:
             for pred, info in r['fails']:
                 ck.violation(rt, pred, {'case': c, 'output': r.get('X'), 'info': info}, cond)
+        if rt == 'makerandCIJdegreesfixed' and len(r['draws']) > sum(c['inv']):
+            ck.count('degreesfixed:repair-loop-entered')
         if rt in MODELLED:
             lines.append(lean_line(c, r)); idx.append(n_)
     if ok:
